@@ -279,7 +279,7 @@ impl<T> Decompressor<T> where T: NumberLike {
   pub fn skip_chunk_body(&mut self) -> QCompressResult<()> {
     self.check_in_chunk_body()?;
     let cbd = self.state.chunk_body_decompressor.as_ref().unwrap();
-    let skipped_bit_idx = self.state.bit_idx + cbd.bits_remaining();
+    let skipped_bit_idx = self.state.bit_idx + cbd.bits_remaining()?;
     if skipped_bit_idx <= self.words.total_bits {
       self.state.bit_idx = skipped_bit_idx;
       self.state.chunk_body_decompressor = None;
